@@ -328,37 +328,12 @@ class StandardObserver:
                            memory=_int_or(ns.memory, 0) if ns.memory else 0)
             except Exception:  # noqa
                 pre = None
-            o_reset = getattr(prop, "reset_model_weights", None)
-            o_train = prop.train
-
-            def reset_model_weights(*a, **k):
-                w = k.get("weights", a[0] if a else True)
-                p_ = k.get("permutations", a[1] if len(a) > 1 else False)
-                rec["reset"] = (bool(w), bool(p_))
-                return o_reset(*a, **k)
-
-            def train(data, *a, **k):
-                rec["data_n"] = int(len(data))
-                return o_train(data, *a, **k)
-
-            patched = False
-            try:
-                if o_reset is not None:
-                    prop.reset_model_weights = reset_model_weights
-                prop.train = train
-                patched = True
-            except Exception:  # noqa
-                pass
+            obs._tp_rec = rec
             try:
                 return orig_train_proposal(ns, force=force)
             finally:
-                if patched:
-                    for name in ("reset_model_weights", "train"):
-                        try:
-                            delattr(prop, name)
-                        except AttributeError:
-                            pass
-                if pre is not None and patched and pre["rw"] >= 0 and pre["rp"] >= 0:
+                obs._tp_rec = None
+                if pre is not None and pre["rw"] >= 0 and pre["rp"] >= 0:
                     try:
                         obs.em.emit("train_call", trained=bool(rec["data_n"] >= 0),
                                     reset_w=bool(rec["reset"][0]) if rec["reset"] else False,
@@ -366,6 +341,29 @@ class StandardObserver:
                                     data_n=int(rec["data_n"]), **pre)
                     except Exception:  # noqa
                         pass
+
+        # (class-level wrappers: nothing is attached to the instances, which are pickled inside train_proposal
+        #  when checkpoint_on_training is set)
+        obs._tp_rec = None
+        for cls in {FlowProposal} | _subclasses(FlowProposal):
+            if "reset_model_weights" in cls.__dict__:
+                def _mk_reset(orig):
+                    def reset_model_weights(prop, *a, **k):
+                        if obs._tp_rec is not None:
+                            w = k.get("weights", a[0] if a else True)
+                            p_ = k.get("permutations", a[1] if len(a) > 1 else False)
+                            obs._tp_rec["reset"] = (bool(w), bool(p_))
+                        return orig(prop, *a, **k)
+                    return reset_model_weights
+                cls.reset_model_weights = _mk_reset(cls.__dict__["reset_model_weights"])
+            if "train" in cls.__dict__:
+                def _mk_train(orig):
+                    def train(prop, data, *a, **k):
+                        if obs._tp_rec is not None and obs._tp_rec["data_n"] < 0:
+                            obs._tp_rec["data_n"] = int(len(data))
+                        return orig(prop, data, *a, **k)
+                    return train
+                cls.train = _mk_train(cls.__dict__["train"])
 
         NestedSampler.check_training = check_training
         NestedSampler.train_proposal = train_proposal
